@@ -111,6 +111,19 @@ Theorem c15_value_round_trip :
 Proof. exact value_round_trip. Qed.
 Print Assumptions c15_value_round_trip.
 
+(* strict or compat validation (ValidationOptions): same status, same raw / data, same text delta for every payload —
+   the id normalisation only feeds the validators, it never reaches a frame's data *)
+Theorem c15_validation_mode_only_errors :
+  forall (A B : absfns) (ev : option str) (raw : str),
+  (forall r, a_json_err A r = a_json_err B r) /\ (forall t, a_fmt_float A t = a_fmt_float B t) ->
+  match jclassify A ev raw, jclassify B ev raw with
+  | CInvalid e, CInvalid e' => e = e'
+  | CEvent v _ _ d, CEvent v' _ _ d' => v = v' /\ d = d'
+  | _, _ => False
+  end.
+Proof. exact mode_only_errors. Qed.
+Print Assumptions c15_validation_mode_only_errors.
+
 (* the parser only builds number tokens it has checked, so every parsed payload prints to JSON *)
 Theorem c15_parsed_numbers_ok :
   forall (txt : str) (j : json), JsonParse.parse txt = Some j -> nums_ok j = true.
